@@ -227,7 +227,8 @@ func (e *c20Exec) Do(op string) error {
 		kind string
 		err  error
 	)
-	if op == "blk" {
+	switch {
+	case op == "blk":
 		kind = "blk"
 		if e.model.tip >= c20HeightFut {
 			// the universe has no further block: the event is not enabled
@@ -240,7 +241,29 @@ func (e *c20Exec) Do(op string) error {
 			return err
 		}
 		v = e.model.stepBlock(obs.Now)
-	} else {
+	case strings.Contains(op, "&"):
+		// a burst: several messages handed to the gossiper back to back, processed
+		// concurrently (validation barrier, per-channel mutex); the outcome must be
+		// that of some serial order
+		kind = "burst"
+		var msgs []*c20Msg
+		var dec []lnwire.Message
+		for _, id := range strings.Split(op, "&") {
+			m, rerr := c20Resolve(id)
+			if rerr != nil {
+				return rerr
+			}
+			if k := c20Kind(m.Decoded); k != "ca" && k != "cu" && k != "na" {
+				return fmt.Errorf("burst member %s is not deliverable", id)
+			}
+			msgs = append(msgs, m)
+			dec = append(dec, m.Decoded)
+		}
+		if obs, err = e.w.DeliverBurst(dec, 1000+8*step); err != nil {
+			return err
+		}
+		v = e.model.stepBurst(msgs, obs.Now)
+	default:
 		msg, rerr := c20Resolve(op)
 		if rerr != nil {
 			return rerr
@@ -263,12 +286,19 @@ func (e *c20Exec) Do(op string) error {
 	}
 	atomic.AddInt64(&e.stats.steps, 1)
 
+	// The model returns the set of acceptable graphs after the step (one, unless
+	// lnd processes several messages concurrently in this step).
 	changed := !reflect.DeepEqual(obs.Graph, pre)
-	match := -1
+	var matches []int
+	mayChange, mustChange := false, true
 	for i, f := range v.Finals {
 		if reflect.DeepEqual(obs.Graph, f) {
-			match = i
-			break
+			matches = append(matches, i)
+		}
+		if reflect.DeepEqual(f, pre) {
+			mustChange = false
+		} else {
+			mayChange = true
 		}
 	}
 	vclass := c20VerdictClass(obs.Verdict)
@@ -277,19 +307,26 @@ func (e *c20Exec) Do(op string) error {
 	diff := func() string { return c20Diff(pre, obs.Graph, v.Finals[0]) }
 
 	switch {
-	case !v.Valid && changed:
+	case changed && !mayChange:
 		e.violate("graph-changed-by-rejectable-message", opc,
 			fmt.Sprintf("%s (model: %s) changed the graph; gossiper verdict %q. %s", op, v.Why, obs.Verdict, diff()))
 		outcome = "VIOLATION"
-	case !v.Valid:
-		e.stats.clause("safety:rejectable-left-graph-unchanged")
-	case v.Valid && match >= 0 && changed:
+	case changed && len(matches) == 0:
+		e.violate("applied-differently", opc,
+			fmt.Sprintf("%s (model: %s) changed the graph, but not into the predicted state; gossiper verdict %q. %s", op, v.Why, obs.Verdict, diff()))
+		outcome = "VIOLATION"
+	case changed:
 		outcome = "applied"
 		e.stats.clause("safety:applied-exactly-as-predicted")
-	case v.Valid && match >= 0 && !changed:
-		// valid but a no-op (cannot happen for ca/cu/na; a block without held messages)
-		outcome = "applied(noop)"
-	case v.Valid && !changed:
+	case !mayChange:
+		e.stats.clause("safety:rejectable-left-graph-unchanged")
+	case len(matches) > 0:
+		// unchanged, and an acceptable outcome (a block without held messages; a
+		// burst in which some serial order applies nothing)
+		outcome = "unchanged(acceptable)"
+	default:
+		// unchanged although every acceptable outcome changes the graph
+		_ = mustChange
 		why := v.Suppressed
 		if why == "" && vclass == "err:recently-rejected" && e.cfg.SamePeer {
 			why = "recently rejected (same peer, same scid)"
@@ -305,10 +342,6 @@ func (e *c20Exec) Do(op string) error {
 			outcome = "suppressed"
 			e.stats.clause("completeness:drop-explained-by-documented-defence")
 		}
-	default:
-		e.violate("applied-differently", opc,
-			fmt.Sprintf("%s (model: %s) changed the graph, but not into the predicted state; gossiper verdict %q. %s", op, v.Why, obs.Verdict, diff()))
-		outcome = "VIOLATION"
 	}
 
 	// relay clause
@@ -332,15 +365,15 @@ func (e *c20Exec) Do(op string) error {
 	if len(obs.Broadcast) == 0 && outcome != "applied" {
 		e.stats.clause("relay:nothing-broadcast-for-unapplied")
 	}
-	if obs.CacheDiff != "" {
+	if obs.CacheDiff != "" && outcome != "VIOLATION" {
 		e.violate("graph-views-disagree", opc,
 			fmt.Sprintf("after %s the store's iteration, its pointed lookups and the pathfinding cache disagree: %s", op, obs.CacheDiff))
 		outcome = "VIOLATION"
 	}
 
 	if e.info != nil {
-		e.info("step %d %s: model=%s valid=%v | gossiper verdict=%q graph-changed=%v outcome=%s broadcast=%d zombies=%v now=%d",
-			step, op, v.Why, v.Valid, obs.Verdict, changed, outcome, len(obs.Broadcast), obs.Zombies, obs.Now)
+		e.info("step %d %s: model=%s must-change=%v | gossiper verdict=%q graph-changed=%v outcome=%s broadcast=%d zombies=%v now=%d",
+			step, op, v.Why, mayChange && mustChange, obs.Verdict, changed, outcome, len(obs.Broadcast), obs.Zombies, obs.Now)
 		if changed {
 			e.info("        graph now: %s", strings.Join(obs.Graph, " ; "))
 		}
@@ -353,17 +386,29 @@ func (e *c20Exec) Do(op string) error {
 	}
 
 	// follow the implementation
-	switch {
-	case outcome == "applied" || outcome == "applied(noop)":
-		e.model = v.After[match]
-	case outcome == "unchanged" || outcome == "suppressed":
-		if !v.Valid && !(e.cfg.SamePeer && vclass == "err:recently-rejected") {
-			// bookkeeping only (held / marked), graph identical. A message the
-			// gossiper refused to look at ("recently rejected") is neither held
-			// nor does it mark anything.
-			e.model = v.After[0]
+	switch outcome {
+	case "applied", "unchanged", "unchanged(acceptable)":
+		if outcome == "unchanged" && e.cfg.SamePeer && vclass == "err:recently-rejected" {
+			// a message the gossiper refused to look at is neither held nor does
+			// it mark anything: the model stays where it was
+			break
 		}
-		// a suppressed valid message leaves the model where it was
+		if len(matches) == 0 {
+			break
+		}
+		e.model = v.After[matches[0]]
+		for _, i := range matches[1:] {
+			if v.After[i].key() != e.model.key() {
+				// several serial orders explain the observed graph but leave
+				// different bookkeeping behind (which update is still held ...):
+				// the execution is not continued (never the case for single messages)
+				e.dead = "ambiguous-bookkeeping"
+				if !e.quiet {
+					e.stats.class(e.space+"|"+kind+"|ambiguous-bookkeeping(not expanded)", nil)
+				}
+				break
+			}
+		}
 	}
 	return nil
 }
@@ -491,7 +536,9 @@ func c20Tiers(thorough bool) c20Tier {
 		tr = c20Tier{
 			orderDepth: 6, orderDepthSQL: 5, samePeerDepth: 4,
 			orderAlphabet: append(append([]string{}, c20AlphabetCore...), "xCA.btc2:=evil,resigned", "CA3", "blk",
-				"NA1b", "CU1b", "CU3", "xCA.node1:=evil,resigned", "xCA.scid=tiny-amount", "xCU.tiny-channel,max>capacity"),
+				"CA&CU0a&NA1", "CU0b&CA", "CU0a&CU0b",
+				"NA1b", "CU1b", "CU3", "xCA.node1:=evil,resigned", "xCA.scid=tiny-amount", "xCU.tiny-channel,max>capacity",
+				"xCA.sigB2=evil&CA", "CU1a&xCU1.sig=other-node&CA"),
 			samePeerAlphabet: append(append([]string{}, c20AlphabetCore...), "xCA.btc2:=evil,resigned"),
 			byteBases:        []string{"CA", "CU0b", "CU1b", "NA1b", "NA2"},
 			byteStride:       1, semSQL: true, bytesSQL: true, deadline: 26 * time.Minute,
@@ -499,7 +546,8 @@ func c20Tiers(thorough bool) c20Tier {
 	} else {
 		tr = c20Tier{
 			orderDepth: 5, orderDepthSQL: 4, samePeerDepth: 3,
-			orderAlphabet:    append(append([]string{}, c20AlphabetCore...), "xCA.btc2:=evil,resigned", "CA3", "blk"),
+			orderAlphabet: append(append([]string{}, c20AlphabetCore...), "xCA.btc2:=evil,resigned", "CA3", "blk",
+				"CA&CU0a&NA1", "CU0b&CA", "CU0a&CU0b"),
 			samePeerAlphabet: c20AlphabetCore,
 			byteBases:        []string{"CA", "CU0b", "NA1b"},
 			byteStride:       1, semSQL: true, deadline: 150 * time.Second,
@@ -886,7 +934,8 @@ func c20Worker(t *testing.T) {
 		"gossip v1 messages only (channel_announcement, channel_update, node_announcement); announcement_signatures, gossip queries and gossip v2 are outside the alphabet",
 		"fixed key material (two node keys, two bitcoin keys, one attacker node key, one attacker bitcoin key); one honest channel plus a tiny-capacity and a future-block channel on a 4-block universe",
 		"messages are delivered by ProcessRemoteAnnouncement one at a time, each run to quiescence in virtual time (synctest) before the next; concurrent delivery of several messages is not enumerated (lnd serialises per channel id)",
-		"AssumeChannelValid=false, no alias scids, graph marked synced (broadcast enabled), production-like lazy batch commits (500 ms) and trickle timer",
+		"AssumeChannelValid=false, no alias scids, graph marked synced (broadcast enabled); the store's lazy timer-driven batch scheduler runs with interval 0 (as the repo's test stores): with a positive interval a synctest bubble freezes when one replayed update waits for the gossiper's per-channel sync.Mutex while its holder waits for the virtual batch timer",
+		"bursts (ops joined by '&') hand several messages over back to back; lnd processes them concurrently under the Go scheduler; handler interleavings inside a burst are not enumerated, the outcome must equal that of some serial order",
 		"completeness clause (valid => applied unless a documented spam defence explains the drop) is stronger than the property text and is reported under its own signature",
 		"zombie / closed-scid marking after a failed funding check is observed but not counted as a graph change",
 	)
@@ -968,8 +1017,28 @@ func c20Parent(t *testing.T) {
 	if _, err := os.Stat(evFile); err == nil && (code == 0 || code == 1) {
 		os.Exit(code)
 	}
-	if os.Getenv("VERIF_REPLAY") != "" {
-		os.Exit(2)
+	if rp := os.Getenv("VERIF_REPLAY"); rp != "" {
+		// the replayed case kills the process: that is the reproduction
+		var art struct {
+			Signature string  `json:"signature"`
+			Replay    c20Case `json:"replay"`
+		}
+		b, err := os.ReadFile(rp)
+		if err != nil || json.Unmarshal(b, &art) != nil || len(art.Replay.Ops) == 0 {
+			os.Exit(2)
+		}
+		first := c20PanicLine(tail)
+		fmt.Printf("INFO the process died while replaying %v: %s\n", art.Replay.Ops, first)
+		run := evid.Start("C20", "model_checking")
+		sig := art.Signature
+		if !strings.HasPrefix(sig, "crash|") {
+			sig = "crash|" + art.Replay.Space + "|" + c20OpClass(art.Replay.Ops[len(art.Replay.Ops)-1])
+		}
+		run.Violation(sig, fmt.Sprintf("the node process dies while processing %v: %s", art.Replay.Ops, first), art.Replay)
+		os.Exit(run.Finish(map[string]any{
+			"states": 1, "transitions": 1, "traces_validated_against_impl": 1, "evaluations": 1, "distinct_nontrivial": 2,
+			"rule": "replay of one recorded case", "samples": []any{art.Replay}, "exhaustive": true,
+		}))
 	}
 	// the worker died: find the execution that kills it
 	fmt.Printf("INFO C20 worker process died (exit %d); probing the executions that were in flight\n", code)
@@ -993,13 +1062,7 @@ func c20Parent(t *testing.T) {
 		}
 		if died == 3 {
 			found++
-			first := "process died"
-			for _, l := range strings.Split(ptail, "\n") {
-				if strings.HasPrefix(l, "panic:") || strings.HasPrefix(l, "fatal error:") {
-					first = l
-					break
-				}
-			}
+			first := c20PanicLine(ptail)
 			run.Violation("crash|"+c.Space+"|"+c20OpClass(c.Ops[len(c.Ops)-1]),
 				fmt.Sprintf("the node process dies while processing %v: %s", c.Ops, first), c)
 		}
@@ -1013,6 +1076,15 @@ func c20Parent(t *testing.T) {
 		"rule": "crash triage only: the exploration worker died", "samples": []any{"crash triage"}, "exhaustive": false,
 		"caps_hit": []string{"exploration worker process died; only crash triage was performed"},
 	}))
+}
+
+func c20PanicLine(tail string) string {
+	for _, l := range strings.Split(tail, "\n") {
+		if strings.HasPrefix(l, "panic:") || strings.HasPrefix(l, "fatal error:") {
+			return l
+		}
+	}
+	return "process died"
 }
 
 func c20CrashProbe(t *testing.T) {
